@@ -134,6 +134,18 @@ TABLE = {
         "Lattice end points only; reference shares the copula function and the marginal integrals (checked in C11 / C09).",
         "6/C12",
     ),
+    "C08": (
+        "model_checking",
+        "stateless choice exploration (chunk->worker assignment, clock answers; deviation-bounded) of complete runs of both real engines on real simulators under a counter-based tracing generator and a simulated worker pool bound to pathos by conformance runs",
+        "Every configuration of the lattice x every schedule with at most D deviations: the (stream, position) sets of the "
+        "variates consumed by any two samples - across paths, passes, levels and simulated workers, including pre-drawn rows - "
+        "must be disjoint; seeded single-process runs must repeat bit for bit from different pre-existing generator states. "
+        "Worker scheduling cannot be controlled for real OS processes, so the pool is a model whose chunking, per-chunk "
+        "closure copies and result order are validated against the real pathos pool on every run.",
+        "SimPool stands for pathos (validated by 5 real-pool traces per run); OS timing, pid reuse and non-fork start methods "
+        "are not modelled; HEM chain on an 11-state grid with the inversion sampler.",
+        "6/C08",
+    ),
 }
 
 READY = []  # filled from checks/ below; a module must define PID
